@@ -59,3 +59,521 @@ theorem month_facts (doy mp : Nat) (h : doy ≤ 365) (hmp : mp = (5 * doy + 2) /
   have : mp = 0 ∨ mp = 1 ∨ mp = 2 ∨ mp = 3 ∨ mp = 4 ∨ mp = 5 ∨ mp = 6 ∨ mp = 7 ∨ mp = 8 ∨ mp = 9 ∨
       mp = 10 ∨ mp = 11 := by omega
   rcases this with h | h | h | h | h | h | h | h | h | h | h | h <;> subst h <;> omega
+
+theorem daysIn_feb (y : Nat) :
+    Time.daysIn 2 y = if y % 4 = 0 ∧ (y % 100 ≠ 0 ∨ y % 400 = 0) then 29 else 28 := by
+  simp [Time.daysIn, Time.isLeap]
+
+/-- `civilFromDays` with its intermediate quantities named -/
+theorem civilFromDays_eq (z : Int) (z' era doe yoe doy mp : Nat)
+    (hz' : (z + 719468 + 146097 * 4).toNat = z')
+    (hera : era = z' / 146097) (hdoe : doe = z' % 146097)
+    (hyoe : yoe = (doe - doe / 1460 + doe / 36524 - doe / 146096) / 365)
+    (hdoy : doy = doe - (365 * yoe + yoe / 4 - yoe / 100)) (hmp : mp = (5 * doy + 2) / 153) :
+    Time.civilFromDays z =
+      (if (if mp < 10 then mp + 3 else mp - 9) ≤ 2 then yoe + era * 400 - 1600 + 1 else yoe + era * 400 - 1600,
+       if mp < 10 then mp + 3 else mp - 9, doy - (153 * mp + 2) / 5 + 1) := by
+  subst hmp hdoy hyoe hdoe hera hz'
+  rfl
+
+/-- `daysFromCivil` with its intermediate quantities named -/
+theorem daysFromCivil_eq (y m d y' : Nat) (hy' : y' = if m ≤ 2 then y + 400 - 1 else y + 400) (mp : Nat)
+    (hmp : mp = if m > 2 then m - 3 else m + 9) :
+    Time.daysFromCivil y m d =
+      ((y' / 400 * 146097 + (y' % 400 * 365 + y' % 400 / 4 - y' % 400 / 100 + ((153 * mp + 2) / 5 + d - 1)) : Nat) : Int)
+        - 719468 - 146097 := by
+  subst hy' hmp
+  rfl
+
+/-- converting back, in terms of the quantities of `civilFromDays` (`y'` is the March-based year
+shifted by one era, `dd` the zero-based day of the month) -/
+theorem back (z era doe yoe doy mp dd y' : Nat) (hz : z + 1303856 = era * 146097 + doe) (hera : 8 ≤ era)
+    (hyoe : yoe ≤ 399) (hdoe : doe = 365 * yoe + yoe / 4 - yoe / 100 + doy)
+    (hdd : (153 * mp + 2) / 5 + dd = doy) (hy' : y' = yoe + era * 400 - 1200) :
+    ((y' / 400 * 146097 + (y' % 400 * 365 + y' % 400 / 4 - y' % 400 / 100 + ((153 * mp + 2) / 5 + (dd + 1) - 1)) : Nat) : Int)
+        - 719468 - 146097 = (z : Int) := by
+  have e1 : y' / 400 = era - 3 := by omega
+  have e2 : y' % 400 = yoe := by omega
+  rw [e1, e2]
+  omega
+
+theorem year_lo (z era doe yoe doy : Nat) (hz : z + 1303856 = era * 146097 + doe) (hera : 8 ≤ era)
+    (hdoe : doe = 365 * yoe + yoe / 4 - yoe / 100 + doy) (hdoy : doy ≤ 365) :
+    9 ≤ era ∨ yoe ≥ 370 ∨ (yoe = 369 ∧ doy ≥ 306) := by
+  omega
+
+theorem year_hi (z era doe yoe doy : Nat) (hzz : z ≤ 2932896) (hz : z + 1303856 = era * 146097 + doe) (hera : era ≤ 28)
+    (hyoe : yoe ≤ 399)
+    (hdoe : doe = 365 * yoe + yoe / 4 - yoe / 100 + doy) (hdoy : doy ≤ 365) :
+    era ≤ 27 ∨ yoe ≤ 398 ∨ (yoe = 399 ∧ doy ≤ 305) := by
+  omega
+
+/-- the civil date of a day number is a valid date and converts back -/
+theorem civil_of_days (z : Nat) (hz : z ≤ 2932896) :
+    let ymd := Time.civilFromDays (z : Int)
+    1970 ≤ ymd.1 ∧ ymd.1 ≤ 9999 ∧ 1 ≤ ymd.2.1 ∧ ymd.2.1 ≤ 12 ∧ 1 ≤ ymd.2.2 ∧ ymd.2.2 ≤ Time.daysIn ymd.2.1 ymd.1 ∧
+    Time.daysFromCivil ymd.1 ymd.2.1 ymd.2.2 = (z : Int) := by
+  intro ymd
+  obtain ⟨z', hz'⟩ : ∃ z' : Nat, ((z : Int) + 719468 + 146097 * 4).toNat = z' := ⟨_, rfl⟩
+  obtain ⟨era, hera⟩ : ∃ era, era = z' / 146097 := ⟨_, rfl⟩
+  obtain ⟨doe, hdoe⟩ : ∃ doe, doe = z' % 146097 := ⟨_, rfl⟩
+  obtain ⟨yoe, hyoe⟩ : ∃ yoe, yoe = (doe - doe / 1460 + doe / 36524 - doe / 146096) / 365 := ⟨_, rfl⟩
+  obtain ⟨doy, hdoy⟩ : ∃ doy, doy = doe - (365 * yoe + yoe / 4 - yoe / 100) := ⟨_, rfl⟩
+  obtain ⟨mp, hmp⟩ : ∃ mp, mp = (5 * doy + 2) / 153 := ⟨_, rfl⟩
+  have hc : ymd = _ := civilFromDays_eq z z' era doe yoe doy mp hz' hera hdoe hyoe hdoy hmp
+  have hz1 : z' = z + 1303856 := by omega
+  have hdoelt : doe < 146097 := by omega
+  have hz'' : z + 1303856 = era * 146097 + doe := by omega
+  have hera8 : 8 ≤ era ∧ era ≤ 28 := by omega
+  obtain ⟨hy399, hstart, hdoy365, hleap⟩ := era_facts doe yoe hdoelt hyoe
+  rw [← hdoy] at hdoy365 hleap
+  have hdoe' : doe = 365 * yoe + yoe / 4 - yoe / 100 + doy := by omega
+  obtain ⟨hmp11, hmd, h31, h30, hfeb⟩ := month_facts doy mp hdoy365 hmp
+  have hlo := year_lo z era doe yoe doy hz'' hera8.1 hdoe' hdoy365
+  have hhi := year_hi z era doe yoe doy hz hz'' hera8.2 hy399 hdoe' hdoy365
+  have hjan : mp < 10 ↔ doy < 306 := by omega
+  obtain ⟨dd, hdd⟩ : ∃ dd, dd = doy - (153 * mp + 2) / 5 := ⟨_, rfl⟩
+  have hdd' : (153 * mp + 2) / 5 + dd = doy := by omega
+  rw [← hdd] at h31 h30 hfeb
+  rw [hc, ← hdd]
+  clear hc ymd hera hdoe hyoe hdoy hz' hz1 hmp hdd
+  simp only []
+  by_cases hm : mp < 10
+  · -- March … December
+    simp only [hm, if_true, if_neg (show ¬ mp + 3 ≤ 2 by omega)]
+    have hdi : dd + 1 ≤ Time.daysIn (mp + 3) (yoe + era * 400 - 1600) := by
+      have hmpc : mp = 0 ∨ mp = 1 ∨ mp = 2 ∨ mp = 3 ∨ mp = 4 ∨ mp = 5 ∨ mp = 6 ∨ mp = 7 ∨ mp = 8 ∨ mp = 9 := by
+        omega
+      rcases hmpc with h | h | h | h | h | h | h | h | h | h <;> subst h <;> simp [Time.daysIn] <;> omega
+    refine ⟨by omega, by omega, by omega, by omega, by omega, hdi, ?_⟩
+    have hdf := daysFromCivil_eq (yoe + era * 400 - 1600) (mp + 3) (dd + 1) _ rfl _ rfl
+    rw [if_neg (show ¬ mp + 3 ≤ 2 by omega), if_pos (show mp + 3 > 2 by omega), Nat.add_sub_cancel] at hdf
+    rw [hdf]
+    exact back z era doe yoe doy mp dd _ hz'' hera8.1 hy399 hdoe' hdd' (by omega)
+  · -- January, February: the calendar year is one more than the March-based year
+    have hmpc : mp = 10 ∨ mp = 11 := by omega
+    simp only [hm, if_false, if_pos (show mp - 9 ≤ 2 by omega)]
+    have hdi : dd + 1 ≤ Time.daysIn (mp - 9) (yoe + era * 400 - 1600 + 1) := by
+      rcases hmpc with h | h <;> subst h
+      · simp [Time.daysIn]; omega
+      · rw [show 11 - 9 = 2 from rfl, daysIn_feb]
+        have h28 := hfeb rfl
+        by_cases hd28 : dd = 28
+        · have hl := hleap (h28.2 hd28)
+          rw [if_pos (by omega)]; omega
+        · split <;> omega
+    refine ⟨by omega, by omega, by omega, by omega, by omega, hdi, ?_⟩
+    have hdf := daysFromCivil_eq (yoe + era * 400 - 1600 + 1) (mp - 9) (dd + 1) _ rfl _ rfl
+    rw [if_pos (show mp - 9 ≤ 2 by omega), if_neg (show ¬ mp - 9 > 2 by omega),
+      show mp - 9 + 9 = mp by omega] at hdf
+    rw [hdf]
+    exact back z era doe yoe doy mp dd _ hz'' hera8.1 hy399 hdoe' hdd' (by omega)
+
+open Rfc3339
+
+/-! ## decimal digits (`natToDec` facts as in C16, restated here to keep the imports small) -/
+
+theorem aux_append (fuel n : Nat) (acc : List Nat) :
+    natDigitsAux fuel n acc = natDigitsAux fuel n [] ++ acc := by
+  induction fuel generalizing n acc with
+  | zero => rfl
+  | succ f ih =>
+    unfold natDigitsAux
+    split
+    · rfl
+    · rw [ih _ (_ :: acc), ih _ [_], List.append_assoc]; rfl
+
+theorem aux_fuel (f1 f2 n : Nat) (acc : List Nat) (h1 : n < f1) (h2 : n < f2) :
+    natDigitsAux f1 n acc = natDigitsAux f2 n acc := by
+  induction f1 generalizing f2 n acc with
+  | zero => omega
+  | succ f ih =>
+    cases f2 with
+    | zero => omega
+    | succ g =>
+      unfold natDigitsAux
+      split
+      · rfl
+      · exact ih _ _ _ (by omega) (by omega)
+
+theorem natToDec_step (n : Nat) :
+    natToDec n = if n < 10 then [48 + n] else natToDec (n / 10) ++ [48 + n % 10] := by
+  unfold natToDec
+  rw [natDigitsAux]
+  split
+  · rfl
+  · rw [aux_append, aux_fuel n (n / 10 + 1) (n / 10) [] (by omega) (by omega)]
+
+theorem digitsVal_snoc (xs : List Nat) (d : Nat) : digitsVal (xs ++ [d]) = digitsVal xs * 10 + (d - 48) := by
+  simp [digitsVal, List.foldl_append]
+
+theorem digitsVal_natToDec (n : Nat) : digitsVal (natToDec n) = n := by
+  induction n using Nat.strongRecOn with
+  | _ n ih =>
+    rw [natToDec_step]
+    split
+    · simp [digitsVal]
+    · rw [digitsVal_snoc, ih (n / 10) (by omega)]; omega
+
+theorem natToDec_allDigit (n : Nat) : (natToDec n).all isDigitB = true := by
+  induction n using Nat.strongRecOn with
+  | _ n ih =>
+    rw [natToDec_step]
+    split
+    · simp [isDigitB]; omega
+    · rw [List.all_append, ih (n / 10) (by omega)]
+      simp [isDigitB]; omega
+
+theorem natToDec_length_le (k n : Nat) (hk : 1 ≤ k) (h : n < 10 ^ k) : (natToDec n).length ≤ k := by
+  induction k generalizing n with
+  | zero => omega
+  | succ k ih =>
+    rw [natToDec_step]
+    split
+    · simp
+    · have hk' : 1 ≤ k := by
+        cases k with
+        | zero => simp at h; omega
+        | succ k => omega
+      have : n / 10 < 10 ^ k := by
+        rw [Nat.pow_succ] at h; omega
+      have := ih (n / 10) hk' this
+      simp; omega
+
+theorem digitsVal_zeros (k : Nat) (x : List Nat) : digitsVal (List.replicate k 48 ++ x) = digitsVal x := by
+  induction k with
+  | zero => simp
+  | succ k ih =>
+    rw [List.replicate_succ, List.cons_append]
+    have : digitsVal (48 :: (List.replicate k 48 ++ x)) = digitsVal (List.replicate k 48 ++ x) := by
+      simp [digitsVal]
+    rw [this, ih]
+
+/-- appending zeros multiplies by a power of ten -/
+theorem digitsVal_append_zeros (x : List Nat) (k : Nat) :
+    digitsVal (x ++ List.replicate k 48) = digitsVal x * 10 ^ k := by
+  induction k with
+  | zero => simp
+  | succ k ih =>
+    rw [List.replicate_succ', ← List.append_assoc, digitsVal_snoc, ih, Nat.pow_succ]
+    simp [Nat.mul_assoc]
+
+/-- `pad w n` for `n < 10^w`: exactly `w` digits, value `n` -/
+theorem pad_spec (w n : Nat) (hw : 1 ≤ w) (h : n < 10 ^ w) :
+    (Render.pad w n).length = w ∧ (Render.pad w n).all isDigitB = true ∧ digitsVal (Render.pad w n) = n := by
+  have hl := natToDec_length_le w n hw h
+  unfold Render.pad
+  refine ⟨?_, ?_, ?_⟩
+  · simp only [List.length_append, List.length_replicate]; omega
+  · rw [List.all_append, natToDec_allDigit]
+    simp [isDigitB]
+  · rw [digitsVal_zeros, digitsVal_natToDec]
+
+/-- every byte of a padded number is a digit, whatever the number -/
+theorem pad_digits (w n : Nat) : ∀ b ∈ Render.pad w n, isDigitB b = true := by
+  intro b hb
+  unfold Render.pad at hb
+  rcases List.mem_append.mp hb with h | h
+  · rw [List.eq_of_mem_replicate h]; rfl
+  · exact List.all_eq_true.mp (natToDec_allDigit n) b h
+
+theorem parseUint_of (bs : List Nat) (lo hi n : Nat) (hd : bs.all isDigitB = true) (hv : digitsVal bs = n)
+    (hlo : lo ≤ n) (hhi : n ≤ hi) : parseUint bs lo hi = some n := by
+  unfold parseUint
+  rw [if_pos hd]
+  show (if (lo ≤ digitsVal bs && digitsVal bs ≤ hi) = true then some (digitsVal bs) else none) = some n
+  rw [hv, if_pos (by simp [hlo, hhi])]
+
+theorem parseUint_pad (w n lo hi : Nat) (hw : 1 ≤ w) (h : n < 10 ^ w) (hlo : lo ≤ n) (hhi : n ≤ hi) :
+    parseUint (Render.pad w n) lo hi = some n :=
+  parseUint_of _ _ _ _ (pad_spec w n hw h).2.1 (pad_spec w n hw h).2.2 hlo hhi
+
+/-! ## the fraction -/
+
+/-- trimming trailing zeros removes a block of zeros -/
+theorem trim_spec (l : List Nat) :
+    ∃ k, l = (l.reverse.dropWhile (· == 48)).reverse ++ List.replicate k 48 := by
+  refine ⟨(l.reverse.takeWhile (· == 48)).length, ?_⟩
+  have h := List.takeWhile_append_dropWhile (p := (· == 48)) (l := l.reverse)
+  have h2 : l = (l.reverse.dropWhile (· == 48)).reverse ++ (l.reverse.takeWhile (· == 48)).reverse := by
+    rw [← List.reverse_append, h, List.reverse_reverse]
+  have h3 : (l.reverse.takeWhile (· == 48)).reverse = List.replicate (l.reverse.takeWhile (· == 48)).length 48 := by
+    rw [List.eq_replicate_iff]
+    refine ⟨by simp, ?_⟩
+    intro b hb
+    have := List.all_eq_true.mp (List.all_takeWhile (p := (· == 48)) (l := l.reverse)) b (List.mem_reverse.mp hb)
+    simpa using this
+  rw [← h3]; exact h2
+
+theorem fracNanos_trim (ns : Nat) (h0 : 0 < ns) (h9 : ns < 1000000000) :
+    let ds := ((Render.pad 9 ns).reverse.dropWhile (· == 48)).reverse
+    ds ≠ [] ∧ ds.all isDigitB = true ∧ fracNanos ds = ns := by
+  intro ds
+  obtain ⟨hl, hd, hv⟩ := pad_spec 9 ns (by omega) (by omega)
+  obtain ⟨k, hk⟩ := trim_spec (Render.pad 9 ns)
+  have hk' : Render.pad 9 ns = ds ++ List.replicate k 48 := hk
+  rw [hk'] at hl hd hv
+  rw [digitsVal_append_zeros] at hv
+  rw [List.all_append] at hd
+  simp only [List.length_append, List.length_replicate] at hl
+  refine ⟨?_, (Bool.and_eq_true _ _ ▸ hd).1, ?_⟩
+  · intro hnil
+    rw [hnil] at hv
+    simp [digitsVal] at hv
+    omega
+  · unfold fracNanos
+    have ht : ds.take 9 = ds := List.take_of_length_le (by omega)
+    show digitsVal (ds.take 9) * 10 ^ (9 - (ds.take 9).length) = ns
+    rw [ht, show 9 - ds.length = k by omega]
+    exact hv
+
+/-! ## the parser on the fixed-width layout -/
+
+theorem len2 (l : List Nat) (h : l.length = 2) : ∃ a b, l = [a, b] := by
+  match l, h with
+  | [a, b], _ => exact ⟨a, b, rfl⟩
+
+theorem len4 (l : List Nat) (h : l.length = 4) : ∃ a b c d, l = [a, b, c, d] := by
+  match l, h with
+  | [a, b, c, d], _ => exact ⟨a, b, c, d, rfl⟩
+
+/-- what the parser needs of the text after the seconds: `Z`, or a fraction and `Z` -/
+def TailOK (rest : List Nat) (nsec : Nat) : Prop :=
+  (rest = [90] ∧ nsec = 0) ∨
+  ∃ d tl, rest = 46 :: d :: (tl ++ [90]) ∧ (d :: tl).all isDigitB = true ∧ fracNanos (d :: tl) = nsec
+
+/-- the parser on a text with the fixed-width layout -/
+theorem parse_fields (ys ms ds hs is ss rest : List Nat)
+    (ly : ys.length = 4) (lm : ms.length = 2) (ld : ds.length = 2) (lh : hs.length = 2)
+    (li : is.length = 2) (ls : ss.length = 2)
+    (year month day hour min sec nsec : Nat)
+    (hy : parseUint ys 0 9999 = some year) (hm : parseUint ms 1 12 = some month)
+    (hd : parseUint ds 1 (Time.daysIn month year) = some day) (hh : parseUint hs 0 23 = some hour)
+    (hi : parseUint is 0 59 = some min) (hs' : parseUint ss 0 59 = some sec)
+    (htail : TailOK rest nsec) :
+    parse (ys ++ [45] ++ ms ++ [45] ++ ds ++ [84] ++ hs ++ [58] ++ is ++ [58] ++ ss ++ rest) =
+      some (Time.unixNano year month day hour min sec nsec) := by
+  obtain ⟨y1, y2, y3, y4, rfl⟩ := len4 ys ly
+  obtain ⟨m1, m2, rfl⟩ := len2 ms lm
+  obtain ⟨d1, d2, rfl⟩ := len2 ds ld
+  obtain ⟨h1, h2, rfl⟩ := len2 hs lh
+  obtain ⟨i1, i2, rfl⟩ := len2 is li
+  obtain ⟨s1, s2, rfl⟩ := len2 ss ls
+  simp only [List.cons_append, List.nil_append]
+  unfold parse
+  have hlen : ¬ (y1 :: y2 :: y3 :: y4 :: 45 :: m1 :: m2 :: 45 :: d1 :: d2 :: 84 :: h1 :: h2 :: 58 :: i1 :: i2 :: 58 ::
+      s1 :: s2 :: rest).length < 19 := by
+    simp only [List.length_cons]; omega
+  rw [if_neg hlen]
+  simp only [List.take_succ_cons, List.take_zero, List.drop_succ_cons, List.drop_zero, hy, hm, hd, hh, hi, hs']
+  have hsep : ((y1 :: y2 :: y3 :: y4 :: 45 :: m1 :: m2 :: 45 :: d1 :: d2 :: 84 :: h1 :: h2 :: 58 :: i1 :: i2 :: 58 ::
+        s1 :: s2 :: rest).getD 4 0 == 45 &&
+      (y1 :: y2 :: y3 :: y4 :: 45 :: m1 :: m2 :: 45 :: d1 :: d2 :: 84 :: h1 :: h2 :: 58 :: i1 :: i2 :: 58 ::
+        s1 :: s2 :: rest).getD 7 0 == 45 &&
+      (y1 :: y2 :: y3 :: y4 :: 45 :: m1 :: m2 :: 45 :: d1 :: d2 :: 84 :: h1 :: h2 :: 58 :: i1 :: i2 :: 58 ::
+        s1 :: s2 :: rest).getD 10 0 == 84 &&
+      (y1 :: y2 :: y3 :: y4 :: 45 :: m1 :: m2 :: 45 :: d1 :: d2 :: 84 :: h1 :: h2 :: 58 :: i1 :: i2 :: 58 ::
+        s1 :: s2 :: rest).getD 13 0 == 58 &&
+      (y1 :: y2 :: y3 :: y4 :: 45 :: m1 :: m2 :: 45 :: d1 :: d2 :: 84 :: h1 :: h2 :: 58 :: i1 :: i2 :: 58 ::
+        s1 :: s2 :: rest).getD 16 0 == 58) = true := rfl
+  rw [if_pos hsep]
+  rcases htail with ⟨rfl, rfl⟩ | ⟨d, tl, rfl, hdig, rfl⟩
+  · simp [parseZone, Time.nsPerSec]
+  · have hd0 : isDigitB d = true := by
+      simp only [List.all_cons, Bool.and_eq_true] at hdig; exact hdig.1
+    have hall : ∀ a ∈ d :: tl, isDigitB a = true := List.all_eq_true.mp hdig
+    have htw : List.takeWhile isDigitB (d :: (tl ++ [90])) = d :: tl := by
+      rw [← List.cons_append, List.takeWhile_append_of_pos hall]
+      simp [isDigitB]
+    have hdw : List.dropWhile isDigitB (d :: (tl ++ [90])) = [90] := by
+      rw [← List.cons_append, List.dropWhile_append_of_pos hall]
+      simp [isDigitB]
+    simp only [hd0, if_true, htw, hdw]
+    simp [parseZone, Time.nsPerSec]
+
+/-- the text after the seconds, for a nanosecond count below one second -/
+theorem tailOK_fracText (ns : Nat) (h9 : ns < 1000000000) : TailOK (Render.fracText ns ++ [90]) ns := by
+  unfold Render.fracText
+  by_cases h0 : ns = 0
+  · subst h0; exact Or.inl ⟨rfl, rfl⟩
+  · right
+    have hne : (ns == 0) = false := by simpa using h0
+    obtain ⟨hnil, hdig, hv⟩ := fracNanos_trim ns (by omega) h9
+    simp only [hne]
+    generalize ((Render.pad 9 ns).reverse.dropWhile (· == 48)).reverse = ds at *
+    cases ds with
+    | nil => exact absurd rfl hnil
+    | cons d tl => exact ⟨d, tl, rfl, hdig, hv⟩
+
+/-- **timestamps are nanosecond-exact**: parsing the RFC3339Nano text of an instant gives the instant back -/
+theorem rfc3339_roundtrip (t : Nat) (ht : t < 253402300800000000000) :
+    Rfc3339.parse (Render.rfc3339Nano t) = some (t : Int) := by
+  obtain ⟨secs, hsecs⟩ : ∃ s, s = t / 1000000000 := ⟨_, rfl⟩
+  obtain ⟨ns, hns⟩ : ∃ n, n = t % 1000000000 := ⟨_, rfl⟩
+  obtain ⟨days, hdays⟩ : ∃ d, d = secs / 86400 := ⟨_, rfl⟩
+  obtain ⟨rem, hrem⟩ : ∃ r, r = secs % 86400 := ⟨_, rfl⟩
+  have hdl : days ≤ 2932896 := by omega
+  have hciv := civil_of_days days hdl
+  unfold Render.rfc3339Nano
+  dsimp only at hciv ⊢
+  rw [← hsecs, ← hns, ← hdays, ← hrem]
+  generalize Time.civilFromDays (days : Int) = ymd at hciv ⊢
+  obtain ⟨y, m, d⟩ := ymd
+  dsimp only at hciv ⊢
+  obtain ⟨hy1, hy2, hm1, hm2, hd1, hd2, hback⟩ := hciv
+  have hd31 : Time.daysIn m y ≤ 31 := by
+    unfold Time.daysIn; split
+    · split <;> omega
+    · split <;> omega
+  rw [List.append_assoc _ (Render.fracText ns) [90]]
+  rw [parse_fields (Render.pad 4 y) (Render.pad 2 m) (Render.pad 2 d) (Render.pad 2 (rem / 3600))
+    (Render.pad 2 (rem % 3600 / 60)) (Render.pad 2 (rem % 60)) (Render.fracText ns ++ [90])
+    (pad_spec 4 y (by omega) (by omega)).1 (pad_spec 2 m (by omega) (by omega)).1
+    (pad_spec 2 d (by omega) (by omega)).1 (pad_spec 2 _ (by omega) (by omega)).1
+    (pad_spec 2 _ (by omega) (by omega)).1 (pad_spec 2 _ (by omega) (by omega)).1
+    y m d (rem / 3600) (rem % 3600 / 60) (rem % 60) ns
+    (parseUint_pad 4 y 0 9999 (by omega) (by omega) (by omega) (by omega))
+    (parseUint_pad 2 m 1 12 (by omega) (by omega) (by omega) (by omega))
+    (parseUint_pad 2 d 1 _ (by omega) (by omega) (by omega) hd2)
+    (parseUint_pad 2 _ 0 23 (by omega) (by omega) (by omega) (by omega))
+    (parseUint_pad 2 _ 0 59 (by omega) (by omega) (by omega) (by omega))
+    (parseUint_pad 2 _ 0 59 (by omega) (by omega) (by omega) (by omega))
+    (tailOK_fracText ns (by omega))]
+  simp only [Time.unixNano, Time.nsPerSec, hback]
+  congr 1
+  omega
+
+/-! ## no space in the text -/
+
+theorem fracText_bytes (ns : Nat) : ∀ b ∈ Render.fracText ns, b = 46 ∨ isDigitB b = true := by
+  intro b hb
+  unfold Render.fracText at hb
+  split at hb
+  · simp at hb
+  · rcases List.mem_cons.mp hb with h | h
+    · exact Or.inl h
+    · right
+      have h1 := (List.dropWhile_sublist (· == 48)).subset (List.mem_reverse.mp h)
+      exact pad_digits 9 ns b (List.mem_reverse.mp h1)
+
+/-- the text contains no space (it can be cut from the message at the first space) -/
+theorem rfc3339_nospace (t : Nat) : ∀ b ∈ Render.rfc3339Nano t, b ≠ 32 := by
+  intro b hb
+  have hdig : ∀ w n, b ∈ Render.pad w n → b ≠ 32 := by
+    intro w n h
+    have := pad_digits w n b h
+    simp only [isDigitB, Bool.and_eq_true, decide_eq_true_eq] at this
+    omega
+  unfold Render.rfc3339Nano at hb
+  simp only [List.mem_append, List.mem_singleton] at hb
+  rcases hb with ((((((((((((h | h) | h) | h) | h) | h) | h) | h) | h) | h) | h) | h) | h)
+  all_goals first
+    | exact hdig _ _ h
+    | (subst h; decide)
+    | skip
+  rcases fracText_bytes _ b h with h | h
+  · subst h; decide
+  · simp only [isDigitB, Bool.and_eq_true, decide_eq_true_eq] at h
+    omega
+
+/-! ## C03 with the real codec
+
+`Frames.Codec` asks for a round trip at every `t : Int`; the lemmas of `Lemmas/Frames.lean` only use
+it at the records' own timestamps, so they are restated here with the codec facts per record. -/
+
+section
+variable {fmtTs : Int → List Nat} {parseTs : List Nat → Option Int}
+
+/-- the codec facts at one record -/
+def CodecAt (fmtTs : Int → List Nat) (parseTs : List Nat → Option Int) (r : Frames.Rec) : Prop :=
+  parseTs (fmtTs r.ts) = some r.ts ∧ ∀ b ∈ fmtTs r.ts, b ≠ 32
+
+theorem step_frame_at (r : Frames.Rec) (hr : Frames.WF fmtTs r) (hc : CodecAt fmtTs parseTs r) (tail : List Nat) :
+    Frames.step parseTs (Frames.encode fmtTs r ++ tail) = .item r tail := by
+  obtain ⟨htyp, hlen⟩ := hr
+  rw [Frames.encode_eq_raw, Frames.step_raw _ _ _ hlen]
+  have hcut : Frames.cutSpace (Frames.payload fmtTs r) = some (fmtTs r.ts, r.body) :=
+    Frames.cutSpace_append _ _ hc.2
+  simp only [htyp, ↓reduceIte, hcut, hc.1]
+
+theorem decode_prefix_at (rs : List Frames.Rec) (hr : ∀ r ∈ rs, Frames.WF fmtTs r ∧ CodecAt fmtTs parseTs r)
+    (tail : List Nat) (fuel : Nat) :
+    Frames.decode parseTs (rs.length + fuel) (Frames.encodeAll fmtTs rs ++ tail) =
+      (rs ++ (Frames.decode parseTs fuel tail).1, (Frames.decode parseTs fuel tail).2) := by
+  induction rs with
+  | nil => simp [Frames.encodeAll]
+  | cons r rs ih =>
+    have hr0 := hr r (by simp)
+    have e : (r :: rs).length + fuel = rs.length + fuel + 1 := by simp; omega
+    have ih' := ih (fun x hx => hr x (by simp [hx]))
+    simp only [Frames.encodeAll, List.flatMap_cons, List.append_assoc] at ih' ⊢
+    rw [e, Frames.decode, step_frame_at r hr0.1 hr0.2]
+    simp only
+    rw [ih']
+    simp
+
+/-- the lossless round trip of C03, from the codec facts at the records' timestamps only -/
+theorem decode_encode_at (rs : List Frames.Rec) (hr : ∀ r ∈ rs, Frames.WF fmtTs r ∧ CodecAt fmtTs parseTs r) :
+    Frames.decodeAll parseTs (Frames.encodeAll fmtTs rs) = (rs, .clean) := by
+  unfold Frames.decodeAll
+  have hlen := Frames.encodeAll_length_ge (fmtTs := fmtTs) rs
+  have e : (Frames.encodeAll fmtTs rs).length + 1 = rs.length + ((Frames.encodeAll fmtTs rs).length + 1 - rs.length) := by
+    omega
+  have h := decode_prefix_at (parseTs := parseTs) rs hr [] ((Frames.encodeAll fmtTs rs).length + 1 - rs.length)
+  rw [List.append_nil] at h
+  rw [e, h]
+  have hf : (Frames.encodeAll fmtTs rs).length + 1 - rs.length = ((Frames.encodeAll fmtTs rs).length - rs.length) + 1 := by
+    omega
+  rw [hf]
+  simp [Frames.decode, Frames.step]
+end
+
+/-- **C03 with the real timestamp codec**: any sequence of records with timestamps in 1970–9999, framed as
+Docker frames them, decodes to exactly those records -/
+theorem decode_encode_rfc3339 (rs : List Frames.Rec)
+    (hr : ∀ r ∈ rs, Frames.WF (fun t => Render.rfc3339Nano t.toNat) r ∧ 0 ≤ r.ts ∧ r.ts < 253402300800000000000) :
+    Frames.decodeAll Rfc3339.parse (Frames.encodeAll (fun t => Render.rfc3339Nano t.toNat) rs) = (rs, .clean) := by
+  apply decode_encode_at
+  intro r hrm
+  obtain ⟨hw, h0, h1⟩ := hr r hrm
+  refine ⟨hw, ?_, rfc3339_nospace _⟩
+  show Rfc3339.parse (Render.rfc3339Nano r.ts.toNat) = some r.ts
+  rw [rfc3339_roundtrip _ (by omega)]
+  congr 1
+  omega
+
+/-! ## non-vacuity -/
+
+-- day numbers: the epoch, a leap day, the last day of the range; the bound of `civil_of_days` is tight
+example : Time.civilFromDays 0 = (1970, 1, 1) := by decide +kernel
+example : Time.civilFromDays 19782 = (2024, 2, 29) := by decide +kernel
+example : Time.civilFromDays 2932896 = (9999, 12, 31) := by decide +kernel
+example : Time.civilFromDays 2932897 = (10000, 1, 1) := by decide +kernel
+example : Time.daysFromCivil 2024 2 29 = 19782 := (civil_of_days 19782 (by decide)).2.2.2.2.2.2
+
+-- "2023-11-14T22:13:20.123456Z"
+example : Render.rfc3339Nano 1700000000123456000 =
+    [50, 48, 50, 51, 45, 49, 49, 45, 49, 52, 84, 50, 50, 58, 49, 51, 58, 50, 48, 46, 49, 50, 51, 52, 53, 54, 90] := by
+  decide +kernel
+example : Rfc3339.parse (Render.rfc3339Nano 1700000000123456000) = some 1700000000123456000 := by decide +kernel
+example : Rfc3339.parse (Render.rfc3339Nano 1700000000123456000) = some 1700000000123456000 :=
+  rfc3339_roundtrip 1700000000123456000 (by decide)
+-- the last representable instant, 9999-12-31T23:59:59.999999999Z
+example : Rfc3339.parse (Render.rfc3339Nano 253402300799999999999) = some 253402300799999999999 :=
+  rfc3339_roundtrip _ (by decide)
+-- the bound of `rfc3339_roundtrip` is tight: the year 10000 is printed with five digits and rejected
+example : Rfc3339.parse (Render.rfc3339Nano 253402300800000000000) = none := by decide +kernel
+
+/-- two records: a message with spaces and a newline at 2023-11-14T22:13:20.123456Z on stdout, and an empty
+message at the epoch on stderr -/
+example : Frames.decodeAll Rfc3339.parse (Frames.encodeAll (fun t => Render.rfc3339Nano t.toNat)
+      [⟨1700000000123456000, 1, [104, 105, 32, 116, 104, 101, 114, 101, 10]⟩, ⟨0, 2, []⟩]) =
+    ([⟨1700000000123456000, 1, [104, 105, 32, 116, 104, 101, 114, 101, 10]⟩, ⟨0, 2, []⟩], .clean) :=
+  decode_encode_rfc3339 _ (by
+    intro r hr
+    simp only [List.mem_cons, List.not_mem_nil, or_false] at hr
+    rcases hr with rfl | rfl
+    · exact ⟨⟨by decide, by decide +kernel⟩, by decide, by decide⟩
+    · exact ⟨⟨by decide, by decide +kernel⟩, by decide, by decide⟩)
+
+end Calendar
